@@ -8,10 +8,13 @@ import (
 	"encoding/hex"
 	"encoding/json"
 	"fmt"
+	"github.com/cloudflare/pat-go/quicwire"
 	"math/big"
+	"math/rand"
 	"os"
 	"sort"
 	"strings"
+	"sync"
 
 	"github.com/cloudflare/circl/oprf"
 	"github.com/cloudflare/pat-go/ecdsa"
@@ -590,7 +593,8 @@ func memRun(seed int64, kind string, calls []string, fill byte) []memStep {
 			}
 		}
 	case "codec":
-		hs := honestMessages(&ctx{seed: seed}, r)
+		// the same honest messages under both fills (they are made with the library's own randomness)
+		hs := cachedHonest(seed, strings.Join(calls, ","), r)
 		pick := map[string][]byte{}
 		for _, h := range hs {
 			pick[h.m] = h.b
@@ -608,7 +612,25 @@ func memRun(seed int64, kind string, calls []string, fill byte) []memStep {
 				for _, m := range msgs {
 					b := append([]byte{}, pick[m]...)
 					if c == "UnmarshalBad" {
-						b = b[:len(b)-1]
+						// cut inside the last field; under one fill the spare capacity behind the slice holds exactly
+						// the missing bytes, under the other a pattern: neither may be read
+						cut := len(b) - 1 - (n*5)%7
+						if m == "batchreq" {
+							// consistently re-framed: the list length announces exactly the truncated body, so the
+							// list ENDS inside its last request (a cut message with an honest prefix is refused early)
+							if l, w := quicwire.ConsumeVarint(b); w > 0 && int(l) == len(b)-w {
+								nb := quicwire.AppendVarint(nil, uint64(cut-w))
+								if len(nb) == w {
+									b = append(nb, b[w:]...)
+								}
+							}
+						}
+						if fill == 0x00 {
+							args[m] = a.argTail("arg.bytes", fmt.Sprintf("%s.bytes%d", m, n), b[:cut], b[cut:], spare+16)
+						} else {
+							args[m] = a.arg("arg.bytes", fmt.Sprintf("%s.bytes%d", m, n), b[:cut], spare+16)
+						}
+						continue
 					}
 					args[m] = a.arg("arg.bytes", fmt.Sprintf("%s.bytes%d", m, n), b, spare)
 				}
@@ -619,6 +641,10 @@ func memRun(seed int64, kind string, calls []string, fill byte) []memStep {
 						d = append(d, byte(map[bool]int{false: 0, true: 1}[ok]))
 						if ok {
 							trackObj(a, m, objs[m], n)
+							// what was decoded is part of the result: it must not depend on bytes outside the argument
+							vb, _ := json.Marshal(objVal(m, objs[m])) // read from the fields, not through Marshal (its cache is state)
+							h := sha256.Sum256(vb)
+							d = append(d, h[:]...)
 						}
 					}
 					return "ok", digestOf(d)
@@ -637,6 +663,25 @@ func memRun(seed int64, kind string, calls []string, fill byte) []memStep {
 		}
 	}
 	return steps
+}
+
+var honestCache = struct {
+	sync.Mutex
+	m map[string][]honestMsg
+}{m: map[string][]honestMsg{}}
+
+// cachedHonest: the first run of a history (first fill) makes the honest messages, the second run reuses them.
+func cachedHonest(seed int64, calls string, r *rand.Rand) []honestMsg {
+	honestCache.Lock()
+	defer honestCache.Unlock()
+	k := fmt.Sprintf("%d/%s", seed, calls)
+	if hs, ok := honestCache.m[k]; ok {
+		delete(honestCache.m, k)
+		return hs
+	}
+	hs := honestMessages(&ctx{seed: seed}, r)
+	honestCache.m[k] = hs
+	return hs
 }
 
 func trackObj(a *memArena, m string, o codecObj, n int) {
